@@ -25,7 +25,7 @@ func H_c07_chunks() {
 	open := [2]bool{}
 	var want [2][]byte
 	created := [2]bool{}
-	k := 1 + nondet_choice("steps", verifChunkSteps)
+	k := 1 + nondet_choice("steps", verif_bound("chunk-steps", verifChunkSteps, 5))
 	for s := 0; s < k; s++ {
 		id := nondet_choice("file-id", 3) // 2 = an id that is never opened
 		switch nondet_choice("op", 3) {
